@@ -196,6 +196,16 @@ class Builder:
                     t = r.choice(cands)
                     pool.append(t)
                 props = self.pp({"k": "v%d" % self.uid} if c.get("child_props") and r.random() < 0.5 else None)
+                if c.get("edif_props") and r.random() < 0.5:
+                    props = dict(props or {})
+                    plist = []
+                    for pk in range(r.randint(1, 3)):
+                        val = r.choice(["8'h0F", "hello world", 3, 0, -7, True, False, "a.b/c", ""])
+                        pr = {"identifier": "P%d" % pk, "value": val}
+                        if r.random() < 0.3:
+                            pr["original_identifier"] = "p[%d]" % pk
+                        plist.append(pr)
+                    props["EDIF.properties"] = plist
                 i = self.emit({"op": "create_child", "on": d, "name": self.nm("u"), "ref": t["h"], "props": props})
                 kids.append(("e%d.0" % i, t))
         # free endpoints of this definition
